@@ -257,6 +257,12 @@ class Server:
             self._input_buffer.put(None)
             self._onboard_thread.join()
         self.servlet.stop()
+        # All the workers have exited, hence all the results that will ever come
+        # are in the output queue by now; end the gather thread after them.
+        # (Workers do not pass the sentinel on by themselves: it could overtake
+        # the results that fellow workers are still to write, and a worker
+        # process would block forever writing to a pipe that nobody reads.)
+        self._q_out.put(None)
         self._gather_thread.join()
         self._clear_ledger()
 
@@ -550,6 +556,7 @@ class AsyncServer:
             self._input_buffer.put(None)
             self._onboard_thread.join()
         self.servlet.stop()
+        self._q_out.put(None)  # See `Server.__exit__`.
         self._gather_thread.join()
 
         pipenotfull = self._pipeline_notfull
